@@ -8,7 +8,7 @@
        create_timed_transitions is empty, so an idle machine with a non-empty ordered pre-buffer does not exist. *)
 From Coq Require Import List ZArith Bool Arith Lia.
 From JSL Require Import Base.Res Base.ListX SM.Types SM.Util SM.Handler SM.Step SM.Middleware SM.Inv SM.Events
-  SMP.ListLemmas SMP.Frame SMP.WF SMP.Preserve SMP.StepInv SMP.Clock SMP.ClockStep SMP.ClockMain SMP.LiftSide SMP.OutputDone SMP.Post SMP.PostApply SMP.FeasView SMP.Feasible SMP.Offers SMP.Unique SMP.Reflect
+  SMP.ListLemmas SMP.Frame SMP.WF SMP.Preserve SMP.StepInv SMP.Clock SMP.ClockStep SMP.ClockMain SMP.LiftSide SMP.Agv SMP.OutputDone SMP.Post SMP.PostApply SMP.FeasView SMP.Feasible SMP.Offers SMP.Unique SMP.Reflect
   SMP.DepLists SMP.Prov SMP.StoreEff SMP.LiftProv SMP.ProvBatch SMP.Claims SMP.Durations SMP.Travel SMP.Hold SMP.Deliver SMP.OffersValid SMP.NoFail.
 Import ListNotations.
 Close Scope Z_scope.
@@ -198,10 +198,57 @@ Proof.
     destruct (offered_start_only_for_unordered_pre_buffer x full m j W F Hct Hfull Hin) as [ms [c [Hms [Hcfg [_ Hrel]]]]]. eauto.
 Qed.
 
+(* the AGV side as the event clause: a job that was taken was at the release position of the buffer it lay in *)
+Lemma correct_at_release j l ty p :
+  NoDup l -> index_of j l = Some p -> is_correct_position (Some p) (length l) ty = Ok true -> at_release_position j l ty = true.
+Proof.
+  intros ND Hp Hc. assert (Hin : In j l) by (eapply index_of_some_in; eauto).
+  destruct l as [|h t]; [destruct Hin|]. unfold is_correct_position in Hc.
+  change (Nat.eqb (length (h :: t)) 0) with false in Hc. cbv iota in Hc. unfold at_release_position.
+  destruct ty.
+  - destruct p; [|discriminate]. apply index_of_nth in Hp. simpl in Hp. inversion Hp. apply Nat.eqb_refl.
+  - assert (Hb : (p =? length (h :: t) - 1) = true) by congruence. apply Nat.eqb_eq in Hb. apply index_of_nth in Hp.
+    pose proof (nth_last (h :: t) h ltac:(discriminate)) as Hnl. rewrite <- Hb in Hnl.
+    assert (E : last (h :: t) h = j) by congruence. rewrite E. apply Nat.eqb_refl.
+  - apply mem_nat_In. exact Hin.
+  - destruct p; [|discriminate]. apply index_of_nth in Hp. simpl in Hp. inversion Hp. apply Nat.eqb_refl.
+Qed.
+
+Lemma transit_release_ok x tr y :
+  WFS i x -> AG x -> apply_transition sigma i x tr = Ok y -> ev_transit_release i x tr y = true.
+Proof.
+  intros W Ag Ha. unfold ev_transit_release. destruct (ekind_of x tr) eqn:Ek; try reflexivity.
+  unfold ekind_of in Ek. destruct (tr_comp tr) as [m|t|n] eqn:Hc; [destruct (tr_new tr) as [s0|s0]; [|discriminate];
+    destruct (nth_error (s_machs x) m) as [ms|]; [destruct (m_st ms), s0; discriminate|discriminate]| |destruct (tr_new tr); discriminate].
+  destruct (tr_new tr) as [s0|s0] eqn:Hn; [discriminate|].
+  destruct (nth_error (s_trans x) t) as [ts|] eqn:Hts; [|discriminate].
+  assert (En : s0 = TTransit) by (destruct (t_st ts), s0; try discriminate; reflexivity). subst s0.
+  destruct (apply_transport sigma i _ _ _ _ _ Hc Hts Ha) as [[_ [E0 _]]|[[_ [E0 _]]|[[Hph [_ C]]|[[_ [E0 _]]|[[_ [E0 _]]|[_ [E0 _]]]]]]];
+    try (rewrite Hn in E0; discriminate).
+  destruct (post_to_transit sigma i _ _ _ _ _ Hts C) as [j [jb [sb [sc [Hj [Hjb [Hsb [Hsc Hd]]]]]]]].
+  rewrite Hj. unfold opt_b. rewrite Hjb, Hsb, Hsc.
+  destruct Hd as [[p [Hp [Hcp Hww]]]|[dst [c [trv [Hcp [_ [_ [_ [[ts' [Hts' [_ [_ [Hst _]]]]] _]]]]]]]]].
+  - (* kept waiting: the AGV's buffer stays empty *)
+    unfold h_t_waiting_waiting in Hww. inv_all Hww. inversion Hww; subst y.
+    rewrite set_trans_ctl_nth, Hts, Nat.eqb_refl. simpl.
+    assert (He : b_store (t_buf ts) = []) by (eapply AG_phase_empty; eauto; destruct Hph as [-> | ->]; discriminate).
+    rewrite He. reflexivity.
+  - rewrite Hts'. apply orb_true_iff. right.
+    destruct (ws_loc _ _ W _ _ Hjb) as [b0 [Hb0 Hinb]]. rewrite Hsb in Hb0. inversion Hb0; subst b0.
+    destruct (index_of_in _ _ Hinb) as [p [Hp _]]. apply (correct_at_release j (b_store sb) (bc_type sc) p); auto.
+    eapply ws_nodup; eauto.
+Qed.
+
 (* every IDLE -> SETUP in the micro-log takes the job at the release position of the pre-buffer, as it was in the micro-state
    before (the state the decision was taken in, for the first entry) *)
 Fixpoint chain_release (x : state) (lg : mlog) : Prop :=
-  match lg with [] => True | (tr, y) :: r => ev_pre_release i x tr y = true /\ chain_release y r end.
+  match lg with
+  | [] => True
+  | (tr, y) :: r => ev_pre_release i x tr y = true /\ ev_transit_release i x tr y = true /\ chain_release y r
+  end.
+
+Lemma ev_transit_release_now x t tr y : ev_transit_release i (set_now x t) tr y = ev_transit_release i x tr y.
+Proof. reflexivity. Qed.
 
 Lemma ev_pre_release_now x t tr y : ev_pre_release i (set_now x t) tr y = ev_pre_release i x tr y.
 Proof. reflexivity. Qed.
@@ -231,8 +278,10 @@ Proof.
   pose proof (reach_micro_chain sigma i Hnn (J8 i) Q9 side2 (OK9 i) BI J9_apply (J8_now i) E9_end BI_now Q9_timed Q9_timed0 Q9_offer (offers_ok9 i)
                 _ _ _ _ _ _ _ _ _ _ C (J8_init i _ W Fr Dn Iu Po) (BI_init _ Dn) H Hm) as Hch.
   clear -Hch. revert Hch. generalize (r_x r). induction lg as [|[tr y] rest IH]; intros x Hch; simpl in *; [exact I|].
-  destruct Hch as [[x1 [[t Ex] [_ [_ [[R HQ] [_ Ha]]]]]] Hrest]. split; [|apply IH; exact Hrest].
-  subst x1. rewrite <- (ev_pre_release_now x t). apply wit_release; eauto.
+  destruct Hch as [[x1 [[t Ex] [_ [Hj [[R HQ] [_ Ha]]]]]] Hrest]. subst x1.
+  split; [rewrite <- (ev_pre_release_now x t); apply wit_release; eauto|].
+  split; [|apply IH; exact Hrest].
+  rewrite <- (ev_transit_release_now x t). destruct Hj as [[[W [[_ [Ag _]] _]] _] _]. apply transit_release_ok; auto.
 Qed.
 
 End R.
